@@ -906,8 +906,8 @@ def make_inputs(tier, seed):
             for lay in LAYOUTS:
                 for pp in itertools.product([False, True], repeat=2):
                     for lk in (LEAFKINDS if term == "leaf" else [None]):
-                        if lk not in (None, "plain", "bool") and pp != (False, True):
-                            continue      # the other leaf kinds: one pre/post shape per layout
+                        if lk not in (None, "plain", "bool") and (pp != (False, True) or lay in ("assign", "try", "with")):
+                            continue      # the other leaf kinds: one pre/post shape, three layouts
                         yield from with_stops(program(root, [], term, rng, layouts=[lay], prepost=[list(pp)], leaf=lk))
     # exhaustive edge kinds
     n2 = 0
@@ -920,8 +920,8 @@ def make_inputs(tier, seed):
                         continue        # quick: every 4th depth-2 path (rotating with the seed)
                 if d == 1 and term == "leaf":
                     for lk in LEAFKINDS:       # every way a chain can end in a non-frame leaf x every leaf kind
-                        for ld in ((True, False) if (lk in SELFAWAIT and lk != "selfaw") else (None,)):
-                            yield from with_stops(program(root, edges, term, rng, leaf=lk, leafdirect=ld))
+                        n2 += 1                # direct / via another object's __await__: alternate (both occur per kind)
+                        yield from with_stops(program(root, edges, term, rng, leaf=lk, leafdirect=bool((n2 + seed) % 2)))
                     continue
                 reps = 2 if d == 1 else 1
                 for _ in range(reps):
